@@ -6,8 +6,8 @@
    [encode_index], and [parse_layout], an independent reader of the caibx layout at fixed offsets).
    [d] is desync.Digest.Algorithm(); a file is a list of bytes. *)
 From Coq Require Import List NArith Arith Bool.
-From DS Require Import Gen.Constants Base.Bytes Base.LE64 Model.Format Model.Index Model.IndexStore
-     Proofs.IndexStoreProofs Proofs.FormatProofs Proofs.IndexProofs Proofs.PrefixProofs Proofs.ReencodeProofs Proofs.LayoutProofs
+From DS Require Import Gen.Constants Base.Bytes Base.LE64 Model.Format Model.Index Model.IndexStore Model.IndexSink
+     Proofs.IndexStoreProofs Proofs.IndexSinkProofs Proofs.FormatProofs Proofs.IndexProofs Proofs.PrefixProofs Proofs.ReencodeProofs Proofs.LayoutProofs
      Proofs.C04Final.
 Import ListNotations.
 Local Open Scope N_scope.
@@ -143,6 +143,27 @@ Theorem C04_store_history_get : forall d old i1 i2,
 Proof. exact store_history_get. Qed.
 Print Assumptions C04_store_history_get.
 
+(* Write faults.  Index.WriteTo onto a writer that accepts ws_cap more bytes and then fails (short
+   write + ENOSPC/EIO/EPIPE), through the 4096-byte bufio.Writer and the final, checked, Flush:
+   a nil error means every byte of the encoding arrived and n is its length ... *)
+Theorem C04_write_to_success : forall (i : index) (s s' : wsink) (n : N),
+  index_write_to i s = (s', n, true) ->
+  ws_data s' = ws_data s ++ encode_index i /\ n = lenN (encode_index i).
+Proof. exact write_to_success. Qed.
+Print Assumptions C04_write_to_success.
+
+(* ... which happens exactly when the writer has room for the whole file ... *)
+Theorem C04_write_to_ok_iff : forall (i : index) (s : wsink),
+  snd (index_write_to i s) = true <-> lenN (encode_index i) <= ws_cap s.
+Proof. exact write_to_ok_iff. Qed.
+Print Assumptions C04_write_to_ok_iff.
+
+(* ... and in every case (also with the flush error dropped) what arrived is a prefix of the file. *)
+Theorem C04_write_to_prefix : forall (v : flush_variant) (i : index) (s : wsink),
+  exists k, ws_data (fst (fst (write_to v i s))) = ws_data s ++ firstn k (encode_index i).
+Proof. exact write_to_prefix. Qed.
+Print Assumptions C04_write_to_prefix.
+
 (* ---- non-vacuity ---- *)
 Definition ex_index : index :=
   mkIndex CaFormatSHA512256 16 64 256 [(ex_id 7, 0, 100); (ex_id 8, 100, 0); (ex_id 9, 100, 256)].
@@ -182,3 +203,15 @@ Example C04_store_without_truncate_refuted :
 Proof.
   vm_compute. repeat split; try reflexivity. intros E. apply (f_equal (@length N)) in E. vm_compute in E. discriminate.
 Qed.
+
+(* `defer bw.Flush()` instead of the checked flush: a 3-chunk index (224 bytes, all of it still in the
+   bufio buffer when the Encode calls return) written onto a full device, or one with room for 100
+   bytes, reports n = 224 and success; the checked flush reports the error *)
+Example C04_deferred_flush_refuted :
+  write_to FlushDeferred ex_index (mkWSink 0 []) = (mkWSink 0 [], 224, true) /\
+  snd (write_to FlushDeferred ex_index (mkWSink 100 [])) = true /\
+  length (ws_data (fst (fst (write_to FlushDeferred ex_index (mkWSink 100 []))))) = 100%nat /\
+  snd (write_to FlushChecked ex_index (mkWSink 0 [])) = false /\
+  snd (write_to FlushChecked ex_index (mkWSink 223 [])) = false /\
+  write_to FlushChecked ex_index (mkWSink 224 []) = (mkWSink 0 (encode_index ex_index), 224, true).
+Proof. vm_compute. repeat split; reflexivity. Qed.
